@@ -835,7 +835,9 @@ def replay_coarse_clause(bt, case, run, h, tx, cls, rng_seed):
     k = rng.choice([2, 3, 5])
     off = 0     # the first date is always kept: rows stamped at or before the replay's synthetic first row would never be executed
     keep = sorted(set(range(off, n, k)) | {n - 1})
-    if len(keep) == n:
+    if rng.random() < 0.3:
+        keep = list(range(n))        # ... and on the run's own timeline (with a quoted spread this is the plain replay clause once more)
+    if len(keep) == n and n < 2:
         return [], "skipped"
     data2 = data.iloc[keep]
     c = bt.core
@@ -848,9 +850,13 @@ def replay_coarse_clause(bt, case, run, h, tx, cls, rng_seed):
     kids.sort(key=lambda x: x.name)
     s2 = bt.Strategy(run["b"].strategy.name, algos=[bt.algos.ReplayTransactions("transactions")], children=kids)
     out = []
+    # every listed row is executed at its listed price: a spread quoted to the replaying strategy must not matter (half of the cases
+    # hand the replay a bid/offer frame with real spreads; on the kept dates the listed price often IS the market price)
+    quoted = rng.random() < 0.5
+    bo = pd.DataFrame(0.5, index=data2.index, columns=data2.columns) if quoted else {}
     try:
         b2 = bt.Backtest(s2, data2, initial_capital=spec["capital"], integer_positions=spec["integer"],
-                         additional_data={"transactions": tx, "bidoffer": {}}, progress_bar=False)
+                         additional_data={"transactions": tx, "bidoffer": bo}, progress_bar=False)
         b2.run()
     except Exception as e:  # noqa
         return [("C18/replay-coarse:raised:%s" % type(e).__name__, "replaying the list on every %d-th date raised %s: %s" % (k, type(e).__name__, str(e)[:200]))], "raised"
@@ -877,7 +883,7 @@ def replay_coarse_clause(bt, case, run, h, tx, cls, rng_seed):
             out.append(("C18/replay-coarse:values", "list replayed on every %d-th date (+%d): value on %s is %r, the original run's %r (%d windows so far held several trades of one name)"
                         % (k, off, d.date(), x2, x1, multi)))
             return out, "judged"
-    return out, "judged:multi" if multi else "judged"
+    return out, ("judged:multi" if multi else "judged") + (":spread-quoted" if quoted else "")
 
 
 def replay_request(bt, case, h, b2, tx, nid):
